@@ -144,10 +144,31 @@ func runC07(c *core.Ctx) {
 					c.Violate("C07/signer/accepts-prehash", "PrivateKey.Sign accepted pre-hashed input announced through a "+name, name, "", nil)
 				}
 			}
-			for name, o := range map[string]crypto.SignerOpts{"custom struct, hash 0": &c07opts{crypto.Hash(0)}, "*crypto/ed25519.Options{}": &stded.Options{}} {
+			for name, o := range map[string]crypto.SignerOpts{"custom struct, hash 0": &c07opts{crypto.Hash(0)}, "*crypto/ed25519.Options{}": &stded.Options{},
+				"*crypto/ed25519.Options{Context: \"x\"} (hash 0: the message is not pre-hashed)": &stded.Options{Context: "x"}} {
 				s, err := priv.Sign(nil, msg, o)
 				if err != nil || !bytes.Equal(s, stded.Sign(std, msg)) {
 					c.Violate("C07/signer/differs", "PrivateKey.Sign with "+name+" differs from Sign", name, "", nil)
+				}
+			}
+			// pre-hashed input looks like a digest: for every hash function a message of exactly its digest length (and the
+			// 64 and 32 byte lengths for all of them), announced through every kind of opts value
+			for h := crypto.Hash(1); h <= 19; h++ {
+				lens := map[int]bool{32: true, 64: true, 20: true, 28: true, 48: true, 16: true}
+				if h.Available() {
+					lens[h.Size()] = true
+				}
+				for l := range lens {
+					digest := bytes.Repeat([]byte{byte(h)}, l)
+					for name, o := range map[string]crypto.SignerOpts{"crypto.Hash": h, "custom struct": &c07opts{h}, "*crypto/ed25519.Options": &stded.Options{Hash: h}, "*crypto/ed25519.Options with context": &stded.Options{Hash: h, Context: "ctx"}} {
+						var sg []byte
+						var err error
+						p := core.Catch(func() { sg, err = priv.Sign(nil, digest, o) })
+						c.Eval(1)
+						if p != nil || err == nil || sg != nil {
+							c.Violate("C07/signer/accepts-prehash", fmt.Sprintf("PrivateKey.Sign accepted a %d-byte digest announced as hash %d through a %s (panic %v)", l, h, name, p), map[string]interface{}{"hash": int(h), "len": l, "opts": name}, "", nil)
+						}
+					}
 				}
 			}
 			if !bytes.Equal(priv, std) {
